@@ -71,14 +71,15 @@ static dispatch_data_t build_regions(char *spec){
 #define MAXQ 16
 #define NK 4
 static char skeys[NK];
-struct hier { int nq; dispatch_queue_t q[MAXQ]; };
+struct hier { int nq; dispatch_queue_t q[MAXQ]; int glob[MAXQ]; };
 static void build_hier(struct hier *h, char *parents, char *conc){
   int par[MAXQ], cc[MAXQ]; h->nq=0; char *sv=NULL;
   for(char *t=strtok_r(parents,",",&sv); t && h->nq<MAXQ; t=strtok_r(NULL,",",&sv)) par[h->nq++]=atoi(t);
   int i=0; sv=NULL; for(char *t=strtok_r(conc,",",&sv); t && i<MAXQ; t=strtok_r(NULL,",",&sv)) cc[i++]=atoi(t);
   for(i=0;i<h->nq;i++){ dispatch_queue_attr_t a = cc[i]? DISPATCH_QUEUE_CONCURRENT : DISPATCH_QUEUE_SERIAL;
-    h->q[i] = par[i]<0 ? dispatch_queue_create("hq", a) : dispatch_queue_create_with_target("hq", a, h->q[par[i]]); } }
-static void free_hier(struct hier *h){ for(int i=h->nq-1;i>=0;i--) dispatch_release(h->q[i]); }
+    h->glob[i] = (par[i]==-2);       // -2: this member IS a global (root) queue - keys can be set on it and queues can target it
+    h->q[i] = par[i]==-2 ? (dispatch_queue_t)dispatch_get_global_queue(DISPATCH_QUEUE_PRIORITY_LOW,0) : par[i]<0 ? dispatch_queue_create("hq", a) : dispatch_queue_create_with_target("hq", a, h->q[par[i]]); } }
+static void free_hier(struct hier *h){ for(int i=h->nq-1;i>=0;i--){ if(h->glob[i]){ for(int k=0;k<NK;k++) dispatch_queue_set_specific(h->q[i],&skeys[k],NULL,NULL); } else dispatch_release(h->q[i]); } }
 struct probe { int kind; const void *key; dispatch_queue_t aq; int neg; volatile long got; dispatch_queue_t inner; int path; struct probe *self; };
 static void probe_fn(void *c){ struct probe *p=c;
   if(p->kind==0) p->got=(long)(intptr_t)dispatch_get_specific(p->key);
